@@ -12,6 +12,7 @@ import PandoraModel.Model.Interp
 import PandoraModel.Model.PyLoops
 import PandoraModel.Model.PyInterp
 import PandoraModel.Generated.KernelsInterp
+import PandoraModel.Lemmas.InterpBits
 import Mathlib.Tactic.Linarith
 
 set_option linter.unusedSimpArgs false
@@ -192,6 +193,71 @@ theorem findValidNeighbors_generated_eq (m : DMap) (r c : Nat) :
   rw [findValidNeighbors_generated_eq_table m _ 8 2 r c (by omega) (by omega)]
   rfl
 
+/-! ## `interpolate_occlusion_sgm` -/
+
+/-- `valid[col, row] & c != 0` on the `Int` reading of the mask -/
+theorem flag_test (m : DMap) (r c : Nat) (bit : Nat) :
+    (!decide (band (embedFlag m (r : Int) (c : Int)) (bit : Int) = 0)) = ((m.flag r c &&& bit) != 0) := by
+  rw [embedFlag, band_natCast]
+  simp only [Int.toNat_natCast]
+  by_cases h0 : (m.flag r c &&& bit) = 0
+  · simp [h0]
+  · have : ¬ (((m.flag r c &&& bit : Nat) : Int) = 0) := by exact_mod_cast h0
+    simp [h0, this]
+
+/-- a flag word carrying bit `2^k` is at least `2^k` -/
+theorem le_of_and_two_pow {f k : Nat} (h : (f &&& 2 ^ k) != 0) : 2 ^ k ≤ f := by
+  have h1 : f &&& 2 ^ k ≤ f := Nat.and_le_left
+  rw [Interp.and_two_pow] at h h1
+  by_cases hb : f.testBit k = true
+  · simpa [hb] using h1
+  · simp [hb] at h
+
+theorem sub_bor (f a b : Nat) (h : a ≤ f) :
+    bor ((f : Int) - (a : Int)) (b : Int) = (((f - a) ||| b : Nat) : Int) := by
+  rw [show (f : Int) - (a : Int) = ((f - a : Nat) : Int) by omega]
+  simp [bor]
+
+theorem findValidNeighbors_length (m : DMap) (r c : Nat) : (Interp.findValidNeighbors m r c).length = 8 := by
+  simp [Interp.findValidNeighbors, dirs8]
+
+/-- **One pixel of `interpolate_occlusion_sgm`, as the source defines it today, is the hand model's `occlSgmPixel`**
+    (guarded text, bit raised with `|=`), for every map and every pixel inside it; `Res.ok`: every read inside the
+    arrays, every bit operation on non-negative words, the call of `find_valid_neighbors` in bounds too. -/
+theorem occlusionSgm_generated_eq (m : DMap) (r c : Nat) (hr : r < m.rows) (hc : c < m.cols) :
+    occlusionSgmPx (embedDisp m) m.rows m.cols (embedFlag m) m.rows m.cols r c
+      = .ok ((occlSgmPixel ⟨true, .or⟩ m r c).1, (((occlSgmPixel ⟨true, .or⟩ m r c).2 : Nat) : Int)) := by
+  have hr0 : (0 : Int) ≤ r := Int.natCast_nonneg r
+  have hc0 : (0 : Int) ≤ c := Int.natCast_nonneg c
+  have hrR : (r : Int) < m.rows := by exact_mod_cast hr
+  have hcC : (c : Int) < m.cols := by exact_mod_cast hc
+  have hcall := findValidNeighbors_generated_eq m r c
+  simp only [sgmDirs] at hcall
+  have h256 : (256 : Int) = ((256 : Nat) : Int) := rfl
+  have h16 : (16 : Int) = ((16 : Nat) : Int) := rfl
+  have hlen := findValidNeighbors_length m r c
+  simp only [occlusionSgmPx, get2_of (embedFlag m) _ _ hr0 hc0, get2_of (embedDisp m) _ _ hr0 hc0,
+    inb2_of hr0 hrR hc0 hcC, embedFlag_nonneg, decide_true, Bool.and_true, hcall, Res.isOk, Res.getD]
+  rw [h256, flag_test m r c 256]
+  have hoc : occlusion = 256 := rfl
+  have hfo : filledOcclusion = 16 := rfl
+  unfold occlSgmPixel
+  simp only [hoc, hfo]
+  by_cases hocc : ((m.flag r c &&& 256) != 0) = true
+  · have hle : 256 ≤ m.flag r c := le_of_and_two_pow (k := 8) hocc
+    have hnn : (0 : Int) ≤ embedFlag m (r : Int) (c : Int) - ((256 : Nat) : Int) := by
+      simp only [embedFlag, Int.toNat_natCast]; omega
+    have hbor := sub_bor (m.flag r c) 256 16 hle
+    simp only [hocc, if_true, countFinite, sortedAbsGet, vget, vinb, hlen, hnn, decide_true, Bool.and_true, h16]
+    by_cases hg : (nums (Interp.findValidNeighbors m r c)).length < 2
+    · have : ¬ ((nums (Interp.findValidNeighbors m r c)).length : Int) ≥ 2 := by omega
+      simp [hg, this, embedDisp, embedFlag]
+    · have : ((nums (Interp.findValidNeighbors m r c)).length : Int) ≥ 2 := by omega
+      have hb : embedFlag m (r : Int) (c : Int) = ((m.flag r c : Nat) : Int) := by simp [embedFlag]
+      simp only [hg, this, decide_true, if_true, Bool.true_and, decide_false, Bool.false_eq_true, if_false, hb, hbor]
+      simp [secondLowestAbs, raise, filledOcclusion, inb, wrap, Interp.isort]
+  · simp [hocc, embedDisp, embedFlag]
+
 /-! ## Non-vacuity -/
 
 def exMap : DMap :=
@@ -203,5 +269,7 @@ example : Generated.KernelsInterp.findValidNeighbors (tab2 0 sgmDirs) 8 2 (embed
     = .ok [.num 8, .num 7, .num 4, .nan, .num 2, .num 3, .num 6, .num 9] := by decide +kernel
 example : Interp.findValidNeighbors exMap 1 1 = [.num 8, .num 7, .num 4, .nan, .num 2, .num 3, .num 6, .num 9] := by
   decide +kernel
+example : occlusionSgmPx (embedDisp exMap) 3 3 (embedFlag exMap) 3 3 1 1 = .ok (.num 3, 16) := by decide +kernel
+example : occlSgmPixel ⟨true, .or⟩ exMap 1 1 = (.num 3, 16) := by decide +kernel
 
 end Pandora.C14Kernels
